@@ -25,8 +25,8 @@ META = dict(
 # (mode, executions)
 MODES_Q = [('epoll', 70), ('epollng', 50), ('et', 50), ('fdapi', 50), ('epollbig', 6), ('epollngbig', 4), ('etbig', 4), ('fdapibig', 4),
            ('batchepoll', 3), ('batchepollng', 2), ('batchet', 2), ('batchfdapi', 2)]
-MODES_T = [('epoll', 1500), ('epollng', 1000), ('et', 1000), ('fdapi', 1000), ('epollbig', 100), ('epollngbig', 60), ('etbig', 60), ('fdapibig', 60),
-           ('batchepoll', 40), ('batchepollng', 25), ('batchet', 25), ('batchfdapi', 25)]
+MODES_T = [('epoll', 1000), ('epollng', 700), ('et', 700), ('fdapi', 700), ('epollbig', 60), ('epollngbig', 40), ('etbig', 40), ('fdapibig', 40),
+           ('batchepoll', 25), ('batchepollng', 15), ('batchet', 15), ('batchfdapi', 15)]
 EPOLL_ENGINE = ('epoll', 'fdapi', 'epollbig', 'fdapibig', 'batchepoll', 'batchfdapi')
 
 # (module, cfg, timeout, witness: None = must hold | name of the property that must be violated)
@@ -133,6 +133,15 @@ def _coverage(rows, cov):
             cov['end_of_stream'] += 1
 
 
+class _Counter:
+    """proxy with its own accepted-execution counter (Tier A and Tier B are validated at the same time)"""
+    def __init__(self, ctx):
+        self._c = ctx
+        self.traces_ok = 0
+    def __getattr__(self, k):
+        return getattr(self._c, k)
+
+
 def _validate(ctx, module, execs, tag, what, chunk):
     rows = [r for e in execs for r in e]
     if not rows:
@@ -186,12 +195,14 @@ def run(ctx):
             execs_a.append([r for r in e if r['e'] not in ('Ctl', 'EpWait')])
             if prim in EPOLL_ENGINE and not any(r['e'] == 'Quiesce' and r.get('trunc') for r in e):
                 execs_b.append([r for r in e if r['e'] not in ()])
-    n_a = _validate(ctx, 'Trace_SockStreamA', execs_a, 'A', 'byte stream / call semantics:', 6000)
-    ok_a = ctx.traces_ok
-    n_b = _validate(ctx, 'Trace_EpollB', execs_b, 'B', 'epoll registration protocol:', 6000)
-    ctx.extra.update({'executions_recorded': n_a, 'executions_accepted_tier_A': ok_a, 'executions_tier_B': n_b,
-                      'executions_accepted_tier_B': ctx.traces_ok - ok_a, 'event_kinds': kinds, 'exercised': cov})
-    ctx.traces_ok = ok_a            # an execution counts once
+    ca, cb = _Counter(ctx), _Counter(ctx)
+    with ThreadPoolExecutor(max_workers=2) as ex:
+        fa = ex.submit(_validate, ca, 'Trace_SockStreamA', execs_a, 'A', 'byte stream / call semantics:', 6000)
+        fb = ex.submit(_validate, cb, 'Trace_EpollB', execs_b, 'B', 'epoll registration protocol:', 6000)
+        n_a, n_b = fa.result(), fb.result()
+    ctx.extra.update({'executions_recorded': n_a, 'executions_accepted_tier_A': ca.traces_ok, 'executions_tier_B': n_b,
+                      'executions_accepted_tier_B': cb.traces_ok, 'event_kinds': kinds, 'exercised': cov})
+    ctx.traces_ok = ca.traces_ok            # an execution counts once
     if not ctx.violations:
         missing = [k for k, v in cov.items() if v == 0]
         if missing and not os.environ.get('VERIF_C10_MODES'):
